@@ -160,6 +160,8 @@ def model_case(cfg, facts, items):
         elif op == "stall":
             dtbl[b"STALL"] = [QSTALL]
             script.append([0, [1, it[1], frame_raw(b"STALL", 0)]])
+        elif op == "logbomb":
+            pass        # a request that fails in its handler and is answered with an exception: not a request of the model's alphabet (oracle only)
         elif op == "emfile":
             # a client connects while the process is out of descriptors: accept() fails once (or more) before it succeeds
             script.append([0, [0, it[1], AUTH_OK]])
@@ -231,6 +233,19 @@ def _quiet_logger():
     lg.handlers[:] = [logging.NullHandler()]
     lg.propagate = False
     lg.setLevel(logging.CRITICAL + 10)
+    return lg
+
+
+def _debug_logger():
+    """a logger as rpyc.lib.setup_logger / bin/rpyc_classic.py set one up: a formatting handler at DEBUG (output discarded).  What the server
+    logs is then FORMATTED, under the handler's lock, which every thread of the server shares"""
+    import logging
+    lg = logging.getLogger("verif.c17.debug")
+    h = logging.StreamHandler(open(os.devnull, "w"))
+    h.setFormatter(logging.Formatter("%(asctime)s %(levelname)s %(name)s %(message)s"))
+    lg.handlers[:] = [h]
+    lg.propagate = False
+    lg.setLevel(logging.DEBUG)
     return lg
 
 
@@ -570,7 +585,7 @@ class History:
         self.unstable_baseline = not wait_until(stable, 10.0)
         self.base_fds = nfds()
         self.base_threads = threading.active_count()
-        kw = {"logger": _quiet_logger(), "listener_timeout": 0.5}
+        kw = {"logger": _debug_logger() if cfg.get("debuglog") else _quiet_logger(), "listener_timeout": 0.5}
         if cfg["transport"] == "unix":
             self.tmp = tempfile.mkdtemp(prefix="c17-")
             self.addr = os.path.join(self.tmp, "s")
@@ -1699,6 +1714,21 @@ class History:
         self.replies.append(["stall"])
         self.settle(idx)
 
+    def do_logbomb(self, idx, cid):
+        """a request that fails in its handler (one argument too many) and carries an object of the CLIENT's by reference; the client then says
+        nothing more.  Whatever the server does with that failure - answering it, logging it - must not make it wait for this client while it
+        holds something its other threads need (seed C16-r9m2: the arguments' repr, a request to the silent client, inside the log handler's lock)"""
+        cl = self.clients[cid]
+        if cl.sock is not None:
+            try:
+                cl.seq += 1
+                args = (R.LABEL_TUPLE, ((R.LABEL_REMOTE_REF, ("builtins.list", 4343, 3000000 + idx)), (R.LABEL_VALUE, "append"), (R.LABEL_VALUE, 1)))
+                cl.sock.sendall(R.frame(R.msg(R.MSG_REQUEST, cl.seq, (H["GETATTR"], args)), False))
+            except OSError:
+                pass
+        self.replies.append(["logbomb"])
+        self.settle(idx)
+
     def do_emfile(self, idx, cid):
         """a client connects while the process has no descriptor left: accept() fails with EMFILE until the limit is lifted again"""
         import resource, socket
@@ -1901,6 +1931,8 @@ class History:
                     self.do_kill(idx, it[1])
                 elif op == "stall":
                     self.do_stall(idx, it[1])
+                elif op == "logbomb":
+                    self.do_logbomb(idx, it[1])
                 elif op == "twin":
                     self.do_twin(idx, it[1], it[2])
                 elif op == "nospawn":
@@ -2658,7 +2690,7 @@ def well_behaved(cfg, items, j):
             seen_connect = True
             if cfg["auth"] and o[3] != AUTH_OK:
                 return False
-        if o[0] in ("send", "kill", "stall", "park", "classref") and o[1] == c:
+        if o[0] in ("send", "kill", "stall", "park", "classref", "logbomb") and o[1] == c:
             return False
         if o[0] == "twin" and c in (o[1], o[2]):
             seen_connect = True
@@ -2683,7 +2715,7 @@ def well_behaved(cfg, items, j):
 def clean_history(items):
     """nothing in it explains an exception in a server thread: only well-formed requests, graceful leaves, no close()"""
     for it in items:
-        if it[0] in ("send", "kill", "stall", "park", "emfile", "race", "srvclose", "hostile", "authlate", "nospawn", "knock", "classref"):
+        if it[0] in ("send", "kill", "stall", "park", "emfile", "race", "srvclose", "hostile", "authlate", "nospawn", "knock", "classref", "logbomb"):
             return False
         if it[0] == "leave" and it[2] == "rst":
             return False
@@ -2736,7 +2768,7 @@ def evaluate(ctx, label, batch, model, facts, farm, probe=None, nontrivial_fn=No
                 if not q:
                     fuel_out.append((cfg_of[i], j))
                 itj = job["items"][j]
-                if itj[0] in ("authlate", "classref", "knock"):
+                if itj[0] in ("authlate", "classref", "knock", "logbomb"):
                     starved = True       # (knock: whether accept() or the reset comes first is the kernel's business)
                 if itj[0] == "nospawn" and (not facts[10] or cfg_of[i]["kind"] != "threaded"):
                     starved = True       # without the guard the server shuts itself down while its threads are still busy with the
